@@ -527,6 +527,7 @@ def main():
         n_rep += 1
         rp = write_replay(pid, seed, n_rep, {"property": pid, "kind": "spec-violation", "case": c,
                                              "implementation": io, "model": mo, "failure": sf, "class": cls,
+                                             "obligations_broken": nofail,
                                              "replay": "echo '<case>' | harness (see tools/vcheck.py)"})
         violations.append(("VIOLATION property=%s replay=%s" % (pid, rp), rp))
     if not violations:
@@ -536,6 +537,7 @@ def main():
                                                  "stream": mism[0][0].split(" ")[0], "first_disagreement":
                                                  {"case": mism[0][0], "implementation": mism[0][1], "model": mism[0][2]},
                                                  "disagreements": len(mism),
+                                                 "obligations_broken": nofail,
                                                  "searched_cases_without_spec_failure": evaluations})
             violations.append(("VIOLATION property=%s replay=%s no-failing-input-found" % (pid, rp), rp))
         elif nofail:
